@@ -73,12 +73,16 @@ TraceComputeOk ==
   /\ Chk("C11", "Props",   num => PropsOk(x, Ev.props))
   /\ Chk("C11", "Globals", num => GlobalsOk(x, Ev.props, Ev.glob))
   /\ Chk("C11", "VentilationRateUsed", (num /\ ~Ev.glob.gvrbad) => GvrOk(x, Ev.props, Ev.glob.gvrmodel))
+  \* one ventilation rate: the figure reported with the indicators is the one the U-value code uses
+  \* (when the habitable volume is zero both are non-finite: the quotient is meaningless, not constrained)
   /\ Chk("C11", "VentilationRateReportedIsTheOneUsed",
-           num => (Ev.glob.gvr_raw = Ev.glob.gvrmodel_raw \/ (~Ev.glob.gvrbad /\ Ev.glob.gvr = Ev.glob.gvrmodel)))
+           num => /\ Ev.glob.gvrfin = Ev.glob.gvrmodelfin
+                  /\ (Ev.glob.gvrfin /\ ~Ev.glob.gvrbad) =>
+                        Abs(Ev.glob.gvr - Ev.glob.gvrmodel) <= 2 + Ev.glob.gvrmodel \div 5000)
   /\ Chk("C08", "K",    num => KOk(x, Ev.props, Ev.k))
   /\ Chk("C09", "N50",  num => N50Ok(x, Ev.props, Ev.glob, Ev.n50))
   /\ Chk("C10", "QSol", num => QSolOk(x, Ev.props, Ev.glob, Hz[x.meta.zone], Ev.q))
-  /\ Chk("C10", "FiniteWithoutWindows", (num /\ QWins(x) = {} /\ Ev.glob.aref > 0) => Ev.q.nonfinite = <<>>)
+  /\ Chk("C10", "FiniteWithoutWindows", (num /\ QWins(x) = {}) => Ev.q.nonfinite = <<>>)
   /\ Chk("C14", "FiniteOnSaneModels", (Ev.sane /\ Sane(x)) => Ev.nonfinite = <<>>)
   /\ Chk("C14", "ResultRoundtripsOnSaneModels", (Ev.sane /\ Sane(x)) => Ev.roundtrips)
   /\ Chk("C16", "PurgeChangesNoIndicator", (Ev.same_as_last /\ last # <<>>) => Headline(Ev) = last)
